@@ -49,6 +49,10 @@ Mark ==
           /\ (IF i = 0 THEN TRUE ELSE (ts[i].k = "o" /\ CloseOf(ts, i, 0) > i + 1))   \* a non-empty element, or the paragraph itself
           /\ ts' = Norm(MarkElement(ts, i))
           /\ op' = [op |-> "mark_element", i |-> i]
+    \/ \E i \in 0..Len(ts) :
+          /\ (IF i = 0 THEN TRUE ELSE ts[i].k = "o")
+          /\ ts' = Norm(MarkFirstChild(ts, i))
+          /\ op' = [op |-> "mark_first_child", i |-> i]
     \/ \E a \in 0..(TotalChars + 1) : \E b \in 0..(TotalChars + 1) :
           /\ a <= b
           /\ ts' = Norm(MarkRange(ts, a, b))
@@ -75,7 +79,7 @@ View == <<ts, n>>
 Emit == IF Dump THEN PrintT(ToJson([pre |-> ts, op |-> op', post |-> ts'])) ELSE TRUE
 
 -----------------------------------------------------------------------------
-Inserting == {"wrap_offset", "wrap_pattern", "mark_occurrence", "mark_position", "mark_range", "mark_content", "mark_element"}
+Inserting == {"wrap_offset", "wrap_pattern", "mark_occurrence", "mark_position", "mark_range", "mark_content", "mark_element", "mark_first_child"}
 
 (* C09: an insertion never alters the readable text *)
 TextPreserved == [][ op'.op \in Inserting => Decode(ts') = Decode(ts) ]_vars
